@@ -66,7 +66,7 @@ static C03: Check = Check {
 static C04: Check = Check {
     property: "C04",
     level: "fault_enumeration",
-    rule: "one run = one honest presentation, then the corrupting catalogue on the Presentation frame: bit flips of the 272 fixed octets in 16 slices (16 consecutive runs enumerate all 2176) plus all 256 bits of one m^ response; truncation/extension by whole scalars; dropped/inserted response; every single-element fault of the disclosed-message list; every integer corruption of every index; permuted / dropped / duplicated / added (index, message) pairs; 9 header and 9 ph faults; header<->ph swap; misroute to other suite / blind interface / other key / stored-pk bit flips; and Mallory's frames built from public data only (8 degenerate-element families x 3 claimed statements, through from_bytes and through the JSON decoder); verdict by content; a case = one delivered frame; every fourth run uses a list length from {128, 257, 64, 32, 129, 256, 33, 65, 127, 258, 63, 31, 255} (walked by the run index) with the edge edits (first / last element, append, cut the tail, swap across the list) plus a random sample instead of the complete catalogue, long lists disclosed completely; headers / presentation headers also of 4095, 4096, 4097 and 6000 octets; framing: lists sometimes start with x, x SEP x (SEP in NUL , newline 0x1f |), list faults include the boundary shift (last octet of element i to the front of element i + 1), headers are sometimes a non-canonical JSON object and octet faults insert a blank / a newline; Mallory's complete transcript without a signature (Abar = alpha*D, Bbar = beta*D, D = k*Bv: passes the challenge comparison, fails only the pairing); half of the forged frames are presented a second time to the same verifier thread; octet faults include the length-prefix edit (I2OSP(len, 8) in front of the string); ENCODING CONFUSION: one message replaced by the 32 octets / the serde form / the hex text of the scalar it maps to; Mallory's zero-response transcript (e^ = 0 over the honest Abar, Bbar with D = Bv of the claimed statement); index lists the draft does not take: the INDEX list alone reordered with the messages as given (every swapped pair a false claim), one index listed twice with one message (R + 1 indexes, R messages)",
+    rule: "one run = one honest presentation, then the corrupting catalogue on the Presentation frame: bit flips of the 272 fixed octets in 16 slices (16 consecutive runs enumerate all 2176) plus all 256 bits of one m^ response; truncation/extension by whole scalars; dropped/inserted response; every single-element fault of the disclosed-message list; every integer corruption of every index; permuted / dropped / duplicated / added (index, message) pairs; 9 header and 9 ph faults; header<->ph swap; misroute to other suite / blind interface / other key / stored-pk bit flips; and Mallory's frames built from public data only (8 degenerate-element families x 3 claimed statements, through from_bytes and through the JSON decoder); verdict by content; a case = one delivered frame; every fourth run uses a list length from {128, 257, 64, 32, 129, 256, 33, 65, 127, 258, 63, 31, 255} (walked by the run index) with the edge edits (first / last element, append, cut the tail, swap across the list) plus a random sample instead of the complete catalogue, long lists disclosed completely; headers / presentation headers also of 4095, 4096, 4097 and 6000 octets; framing: lists sometimes start with x, x SEP x (SEP in NUL , newline 0x1f |), list faults include the boundary shift (last octet of element i to the front of element i + 1), headers are sometimes a non-canonical JSON object and octet faults insert a blank / a newline; Mallory's complete transcript without a signature (Abar = alpha*D, Bbar = beta*D, D = k*Bv: passes the challenge comparison, fails only the pairing); half of the forged frames are presented a second time to the same verifier thread; octet faults include the length-prefix edit (I2OSP(len, 8) in front of the string); ENCODING CONFUSION: one message replaced by the 32 octets / the serde form / the hex text of the scalar it maps to; Mallory's zero-response transcript (e^ = 0 over the honest Abar, Bbar with D = Bv of the claimed statement); index lists the draft does not take: the INDEX list alone reordered with the messages as given (every swapped pair a false claim), one index listed twice with one message (R + 1 indexes, R messages); the proof followed by 1 / 31 / 33 octets; index corruptions now include the honest index plus 2^8 / 2^16 / 2^32 / 3 * 2^32 / 2^63 (what survives a narrowing)",
     quick_runs: 48,
     thorough_runs: 480,
     run: scen_proof::run_c04,
@@ -94,7 +94,7 @@ static C08: Check = Check {
 static C09: Check = Check {
     property: "C09",
     level: "fault_enumeration",
-    rule: "per artefact type {PublicKey, SecretKey, Signature, BlindSignature, PoKSignature, ZKPoK, Commitment, BlindFactor} and ciphersuite, around an honest encoding: (part 0) store round trips across a node restart in every codec (octets, JSON, pk coordinates), extension by 1..=64 octets x 3 content classes, truncation to every length; (part 1) every single-bit flip; (part 2) every non-canonical / forbidden substitution in every point and scalar slot (scalar+r, +2r, =r, =2^256-1, =0, =r-1; identity, identity+sort flag, infinity flag with non-zero x, compression flag cleared, infinity flag on a point, non-subgroup point, off-curve x, x>=p, sort flag flipped); run index -> (suite, type, part): 48 consecutive runs enumerate everything; oracle: accepted => re-encoding equals the delivered octets, forbidden class => Err; a case = one delivered octet string that reached a decoder (wrong lengths for fixed-size array parameters are excluded by the type and not counted); the coordinate form x || y fed to the octet decoder (a foreign encoding of the same key), and forbidden coordinates (a curve point outside the subgroup, a point off the curve, infinity); the library's key store (KeyPair::write_keypair_to_file) on a path with each of four histories (nothing there, a longer older document, a shorter one, another key pair written just before), a crash of the role, and the reload of the file; JSON decoded through from_str / from_reader / from_value; signature octets of other lengths through the slice entry points (proof_gen, blind_proof_gen); one extra run per 49 GRINDS: four threads walk k*G until they meet points of G1 whose x-coordinate starts with the leading octets 1a 01 11 of the field modulus, fed to the signature and commitment decoders; a burst of four roles storing different key pairs into one directory at the same time, 60 writes each, every write read back; two points of a proof moved off the subgroup by cancelling small-order components; commitments to NO message through every codec",
+    rule: "per artefact type {PublicKey, SecretKey, Signature, BlindSignature, PoKSignature, ZKPoK, Commitment, BlindFactor} and ciphersuite, around an honest encoding: (part 0) store round trips across a node restart in every codec (octets, JSON, pk coordinates), extension by 1..=64 octets x 3 content classes, truncation to every length; (part 1) every single-bit flip; (part 2) every non-canonical / forbidden substitution in every point and scalar slot (scalar+r, +2r, =r, =2^256-1, =0, =r-1; identity, identity+sort flag, infinity flag with non-zero x, compression flag cleared, infinity flag on a point, non-subgroup point, off-curve x, x>=p, sort flag flipped); run index -> (suite, type, part): 48 consecutive runs enumerate everything; oracle: accepted => re-encoding equals the delivered octets, forbidden class => Err; a case = one delivered octet string that reached a decoder (wrong lengths for fixed-size array parameters are excluded by the type and not counted); the coordinate form x || y fed to the octet decoder (a foreign encoding of the same key), and forbidden coordinates (a curve point outside the subgroup, a point off the curve, infinity); the library's key store (KeyPair::write_keypair_to_file) on a path with each of four histories (nothing there, a longer older document, a shorter one, another key pair written just before), a crash of the role, and the reload of the file; JSON decoded through from_str / from_reader / from_value; signature octets of other lengths through the slice entry points (proof_gen, blind_proof_gen); one extra run per 49 GRINDS: four threads walk k*G until they meet points of G1 whose x-coordinate starts with the leading octets 1a 01 11 of the field modulus, fed to the signature and commitment decoders; a burst of four roles storing different key pairs into one directory at the same time, 60 writes each, every write read back; two points of a proof moved off the subgroup by cancelling small-order components; commitments to NO message through every codec; zero octets and other octets PREPENDED (1, 2, 16, 32, 48) to every artefact",
     quick_runs: 49,
     thorough_runs: 196,
     run: scen_codec::run_c09,
@@ -175,7 +175,7 @@ static C11: Check = Check {
 static C12: Check = Check {
     property: "C12",
     level: "exploration",
-    rule: "one run = one credential (L in 1..12; L = 1..6 in rotation on every fourth run with positions visited exhaustively) and a holder-intended history of up to 10 (thorough 32) single-message updates sent as UpdateRequest(i, old, new) frames over a channel that reorders, duplicates, drops and corrupts (index, old value) them; the Issuer applies them in arrival order; after each applied update the sequential model decides: correct old value => the reply verifies for the intended vector, keeps e, and its A equals B(vector)/(sk+e) computed by the spec model; index >= L => error; wrong old value (alteration, reorder, double application) => the reply must not verify for the intended vector; finally every epoch's signature is replayed against every other epoch's vector; a case = one update or one replay; 1 credential in 8 is long (65, 129, 254 .. 257 or 300 messages) and is updated at the positions around 64 / 128 / 254 .. 256 and at its last one; new values related to the old one (extended by 1 / 255 / 256 / 257 / 512 octets, cut by 256) and, rarely, of 65535 / 65536 / 70000 octets; old and new value are passed as views of one buffer whenever the new value extends the old one; 1 run in 6: a burst of four issuers serving 24 update requests each at the same time",
+    rule: "one run = one credential (L in 1..12; L = 1..6 in rotation on every fourth run with positions visited exhaustively) and a holder-intended history of up to 10 (thorough 32) single-message updates sent as UpdateRequest(i, old, new) frames over a channel that reorders, duplicates, drops and corrupts (index, old value) them; the Issuer applies them in arrival order; after each applied update the sequential model decides: correct old value => the reply verifies for the intended vector, keeps e, and its A equals B(vector)/(sk+e) computed by the spec model; index >= L => error; wrong old value (alteration, reorder, double application) => the reply must not verify for the intended vector; finally every epoch's signature is replayed against every other epoch's vector; a case = one update or one replay; 1 credential in 8 is long (65, 129, 254 .. 257 or 300 messages) and is updated at the positions around 64 / 128 / 254 .. 256 and at its last one; new values related to the old one (extended by 1 / 255 / 256 / 257 / 512 octets, cut by 256) and, rarely, of 65535 / 65536 / 70000 octets; old and new value are passed as views of one buffer whenever the new value extends the old one; 1 run in 6: a burst of four issuers serving 24 update requests each at the same time; a corrupted position on a request that changes nothing (new value == old value)",
     quick_runs: 300,
     thorough_runs: 1500,
     run: scen_update::run_c12,
@@ -183,7 +183,7 @@ static C12: Check = Check {
     real: REAL,
     simulated: SIMULATED,
     exhaustive_after: None,
-    probes: &["long_credential_updated_near_its_end", "concurrent_update_requests"],
+    probes: &["long_credential_updated_near_its_end", "concurrent_update_requests", "corrupted_position_on_a_request_that_changes_nothing"],
 };
 
 fn node_init() {
